@@ -10,7 +10,7 @@ print("prep:", P.translator_errors, P.harness_error, P.coq_ok, P.driver_error, P
 n = int(sys.argv[1]) if len(sys.argv) > 1 else 300
 seed = sys.argv[2] if len(sys.argv) > 2 else "1"
 cases = F.snippet_cases(opts={"reparse": True}) + F.generated_cases(seed, n, "survey", cfg_fn=F.config_variants, opts={"reparse": True})
-res = C.run_cases(cases, "model,hooks,classes,directives,erase,sites,hygiene,shapes", "survey")
+res = C.run_cases(cases, "model,hooks,classes,directives,erase,sites,hygiene,shapes,roundtrip", "survey")
 tally = collections.Counter()
 ex = {}
 for case, r, calls in res:
@@ -28,9 +28,9 @@ for case, r, calls in res:
         if m.get("missing_sites"): 
             for s in m["missing_sites"]: note("missing:" + s["class"])
         for k, nm in m.get("out_hygiene", []): note("hyg:" + k)
-        for k, nm in m.get("reparsed_hygiene", []): note("rhyg:" + k)
         for s in m.get("out_shapes", []): note("shape:" + s)
         if cout.get("reparse_error"): note("reparse_error")
+        if m.get("roundtrip_ok") is False and (C.impl_metrics(cout) or {}).get("status") == "modified": note("roundtrip"); ex["roundtrip%d" % tally["roundtrip"]]=(cin["code"][:300]+"\n"+m["roundtrip_diff_out"]+"\n"+m["roundtrip_diff_reparsed"], None)
 for k, v in sorted(tally.items()): print(v, k)
 for k, (code, cl) in ex.items():
     print("----", k, cl); print(code)
